@@ -2257,3 +2257,74 @@ func paramIndex2(info *types.Info, fd *ast.FuncDecl, o types.Object) int {
 	}
 	return -1
 }
+
+// E9ClipClosed: a clipping contour is closed when it is registered with the sweep.
+func E9ClipClosed(c *core.Ctx, r *core.Report) {
+	r.Rule("E9.clip-closed", "bentleyOttmann registers each contour with SweepEvents.AddPathEndpoints, which marks the segments of a contour that is not closed as `open`; open segments get no windings of their own and are treated as polylines to be clipped. That is meant for the subject only: the clipping operand always stands for its filled region. Every AddPathEndpoints call whose `clipping` argument is true therefore passes a variable that the same block has established to be closed: a preceding `if !X.Closed() { …; X.Close() }` (or an unconditional X.Close()) on that very variable. Passing the original element instead of the closed copy makes an unclosed clip path an empty region: And returns nothing, Not keeps everything")
+	p := c.MustPkg("")
+	info := p.TypesInfo
+	fd := core.MustFuncDecl(p, "bentleyOttmann")
+	r.Func("canvas.bentleyOttmann")
+	n := 0
+	var stack []ast.Node
+	ast.Inspect(fd.Body, func(m ast.Node) bool {
+		if m == nil {
+			stack = stack[:len(stack)-1]
+			return true
+		}
+		stack = append(stack, m)
+		call, ok := m.(*ast.CallExpr)
+		if !ok || len(call.Args) != 3 {
+			return true
+		}
+		f := core.CalleeOf(info, call)
+		if f == nil || f.Name() != "AddPathEndpoints" {
+			return true
+		}
+		if id, ok := core.Unparen(call.Args[2]).(*ast.Ident); !ok || id.Name != "true" {
+			return true
+		}
+		n++
+		key := fmt.Sprintf("canvas.bentleyOttmann|clipping contour #%d is established closed before it is registered", n)
+		xid, isId := core.Unparen(call.Args[0]).(*ast.Ident)
+		if !isId {
+			r.Fail("E9.clip-closed", key, c.Pos(call.Pos()), fmt.Sprintf("the clipping contour `%s` is not a variable that was closed in this block: an unclosed clip path is registered as open polylines", c.Src(call.Args[0])))
+			return true
+		}
+		x := core.ObjOf(info, xid)
+		// enclosing block and preceding statements
+		closed := false
+		for i := len(stack) - 2; i >= 0 && !closed; i-- {
+			bl, ok := stack[i].(*ast.BlockStmt)
+			if !ok {
+				continue
+			}
+			for _, st := range bl.List {
+				if st.Pos() >= call.Pos() {
+					break
+				}
+				ast.Inspect(st, func(k ast.Node) bool {
+					cc, ok := k.(*ast.CallExpr)
+					if !ok {
+						return true
+					}
+					if se, ok := cc.Fun.(*ast.SelectorExpr); ok && se.Sel.Name == "Close" && len(cc.Args) == 0 {
+						if rid, ok := core.Unparen(se.X).(*ast.Ident); ok && core.ObjOf(info, rid) == x {
+							// inside `if !X.Closed()` or unconditional
+							closed = true
+						}
+					}
+					return true
+				})
+			}
+		}
+		if closed {
+			r.OK("E9.clip-closed", key, c.Pos(call.Pos()), xid.Name)
+		} else {
+			r.Fail("E9.clip-closed", key, c.Pos(call.Pos()), fmt.Sprintf("`%s` is registered as clipping contour but nothing in the block closes it: an unclosed clip path is then treated as open polylines and its region as empty", xid.Name))
+		}
+		return true
+	})
+	r.Count("E9.clipping-registrations", n)
+	r.Floor("E9.clipping-registrations", 1)
+}
